@@ -395,7 +395,9 @@ def run_bank(inp):
             with warnings.catch_warnings():
                 warnings.simplefilter("ignore")
                 with dask.config.set(scheduler="synchronous"):
-                    out = M.pick_molecules(arr, 1.0, min_distance=5.0, min_score=0.7)
+                    # (exclusion distance well above half a template: with 90 / 180 degree members in the bank a
+                    # half-overlapping rotated copy of the template's own density can score above 0.7)
+                    out = M.pick_molecules(arr, 1.0, min_distance=7.0, min_score=0.75)
         except Exception as e:  # noqa: BLE001
             viols.append({"clause": "no-error", "input": dict(inp), "desc": f"{label}: {type(e).__name__}: {str(e)[:100]}"})
             continue
